@@ -33,6 +33,6 @@ def genEmit2 : Emit2 := {
   down1 := Gen.C10.cursorDown1, downPre := Gen.C10.cursorDownPre, downSuf := Gen.C10.cursorDownSuf,
   gotoPre := Gen.C10.gotoPre, gotoMid := Gen.C10.gotoMid, gotoSuf := Gen.C10.gotoSuf,
   shapes := Gen.C10.cursorShapes, shapeMarks := Gen.C10.cursorShapeMarks, resetShape := Gen.C10.resetCursorShape,
-  titlePre := Gen.C10.titlePre, titleSuf := Gen.C10.titleSuf, titleRemoved := Gen.C10.titleRemoved }
+  titlePre := Gen.C10.titlePre, titleSuf := Gen.C10.titleSuf }
 
 end Ptk.C10
